@@ -96,6 +96,8 @@ class Executor(HeapMixin, ExprMixin, CallMixin, ContractMixin, StmtMixin):
         self.axioms = []
         self.recdefs = {}
         self._mod_values = {}
+        self.synthetic_loops = {}
+        self._synthetic_keep = []
         self.inline_depth = 0
         self.in_comprehension = 0
         self.comp_oracle_stack = []
